@@ -13,7 +13,7 @@ import (
 // Universe is the fixed, ordered set of addresses an observation looks at: the fixed accounts
 // (caller, base contracts, plain accounts, precompiles 1/2/4) plus every address any StateDB
 // mutator was called with during the discovery pass of the same program. A mutator call with
-// an address outside the universe during a checked pass stops that pass (universeMiss).
+// an address outside the universe during a checked pass silences the oracle for the rest of that pass (guardDB).
 type Universe struct {
 	Addrs []common.Address
 	idx   map[common.Address]int
